@@ -787,53 +787,43 @@ Fixpoint hprefix_eqb (a t : list N) : bool :=     (* a is a prefix of t *)
 
 (* the ChunkScan holds exactly the C string s: strLen = |s| + 1 and str[0 .. strLen) = s ++ [0] *)
 Definition ast_is (a : ast) (s : str) : bool :=
-  (a_len a =? lenN s + 1) && hprefix_eqb (s ++ [0]) (a_buf a).
+  (a_len a =? lenN s + 1) && (a_len a <? 2 ^ 32) && hprefix_eqb (s ++ [0]) (a_buf a).
 
-(* decodeString applied to the internal strings of one bucket one after the other: every call must hand
-   out the next string and return its shared-prefix length *)
-Fixpoint trace_rest (d : htfc) (st : bst * ast) (prev : str) (ss : list str) : bool :=
+(* one pass over the flat list of strings; string number i (0-based) is the header of bucket i/b + 1 iff
+   i mod b = 0.  Headers: blStrings[k] points at the bytes encodeString(h, |h|+1) produces (what locateBucket
+   compares with memcmp), decodeHeader(k) hands out h, resetScan(k) succeeds.  Internal strings:
+   decodeString, called in the state the previous string left, hands out the string and returns its
+   shared-prefix length.  Returns the ChunkScan state after every string. *)
+Fixpoint htrace_from (d : htfc) (b : N) (i : N) (prev : str) (pst : bst * ast) (ss : list str)
+  : option (list (bst * ast)) :=
   match ss with
-  | [] => true
+  | [] => Some []
   | s :: r =>
-      match decode_string d (str_cap d) (fst st) (snd st) with
-      | None => false
-      | Some (b', a', shared) => (shared =? lcp prev s) && ast_is a' s && trace_rest d (b', a') s r
-      end
+      if i mod b =? 0 then
+        let k := i / b + 1 in
+        match rdN (h_bl d) k, pack_string (h_cw d) (s ++ [0]), decode_header d k with
+        | Some off, Some (enc, _), Some st0 =>
+            match reset_scan d k st0 with
+            | Some st1 =>
+                if (off <=? lenN (h_text d)) && hprefix_eqb enc (skipN off (h_text d)) && ast_is (snd st0) s
+                then option_map (cons st1) (htrace_from d b (i + 1) s st1 r)
+                else None
+            | None => None
+            end
+        | _, _, _ => None
+        end
+      else
+        match decode_string d (str_cap d) (fst pst) (snd pst) with
+        | Some (b', a', shared) =>
+            if (shared =? lcp prev s) && ast_is a' s
+            then option_map (cons (b', a')) (htrace_from d b (i + 1) s (b', a') r)
+            else None
+        | None => None
+        end
   end.
 
-(* bucket number k (1-based) holds the strings ss *)
-Definition bucket_chk (d : htfc) (k : N) (ss : list str) : bool :=
-  match ss with
-  | [] => false
-  | h :: r =>
-      match rdN (h_bl d) k, pack_string (h_cw d) (h ++ [0]) with
-      | Some off, Some (enc, _) =>
-          (off <=? lenN (h_text d)) && hprefix_eqb enc (skipN off (h_text d)) &&
-          match decode_header d k with
-          | None => false
-          | Some st0 =>
-              ast_is (snd st0) h &&
-              match reset_scan d k st0 with
-              | None => false
-              | Some st1 => trace_rest d st1 h r
-              end
-          end
-      | _, _ => false
-      end
-  end.
-
-Fixpoint buckets_chk (d : htfc) (k : N) (bs : list (list str)) : bool :=
-  match bs with
-  | [] => true
-  | ss :: r => bucket_chk d k ss && buckets_chk d (k + 1) r
-  end.
-
-(* S cut into consecutive buckets of b strings (the last one possibly shorter) *)
-Fixpoint hchunks (fuel : nat) (b : nat) (S : list str) : list (list str) :=
-  match fuel with
-  | O => []
-  | Datatypes.S f => match S with [] => [] | _ => firstn b S :: hchunks f b (skipn b S) end
-  end.
+Definition st0_dummy : bst * ast :=
+  ({| c_chunk := 0; c_valid := 0; b_ptr := 0; b_remain := 0 |}, {| a_buf := []; a_len := 0; a_adv := 0; a_ext := 0 |}).
 
 Definition code_chk (cws : list cw) : bool :=
   (lenN cws =? 256) && check_prefix_free cws && check_alphabetic cws && check_lengths cws &&
@@ -844,4 +834,4 @@ Definition htfc_check (S : list str) (d : htfc) : bool :=
   (2 <=? b) && (b <? 2 ^ 32) && (h_elements d =? lenN S) && (lenN S <? 2 ^ 32) &&
   (h_buckets d =? (lenN S + b - 1) / b) && (h_k d =? 16) &&
   code_chk (h_cw d) && forallb (fun x => x <? 256) (h_text d) &&
-  buckets_chk d 1 (hchunks (length S) (N.to_nat b) S).
+  match htrace_from d b 0 [] st0_dummy S with Some _ => true | None => false end.
